@@ -84,3 +84,76 @@ MUT.update({
 
 for k in sys.argv[1:]:
     run(k,*MUT[k])
+
+
+# ---- round 3: multi-call, layout, boundary, leaf-text mutants
+MUT3 = {
+ # descriptor weights are "cleaned" in place (zero where the RDM has no value): every single call is right, a
+ # later mean of another stack sharing the weight array drops entries
+ 'R1': ('rdm/rdms.py', """            weights = self.rdm_descriptors[weights]
+""", """            weights = self.rdm_descriptors[weights]
+            if isinstance(weights, np.ndarray) and weights.ndim == 2 and weights.dtype == float:
+                weights[np.isnan(self.dissimilarities)] = 0
+"""),
+ # boundary value of the evidence clip
+ 'R3': ('rdm/combine.py', "weights = (dissim ** 2).clip(0.2 ** 2)", "weights = (dissim ** 2).clip(0.2)"),
+ # memory order: right for C-contiguous stacks, misaligned for Fortran-ordered ones
+ 'R5': ('rdm/compare.py', """    vector1_no_nan = vector1[nan_idx].reshape(vector1.shape[0], -1)
+    vector2_no_nan = vector2[nan_idx2].reshape(vector2.shape[0], -1)
+    return vector1_no_nan, vector2_no_nan, nan_idx[0]""", """    vector1_no_nan = vector1.ravel(order='K')[nan_idx.ravel(order='K')].reshape(vector1.shape[0], -1)
+    vector2_no_nan = vector2.ravel(order='K')[nan_idx2.ravel(order='K')].reshape(vector2.shape[0], -1)
+    return vector1_no_nan, vector2_no_nan, nan_idx[0]"""),
+ # the same without touching the statements the leaves anchor on: a 'contiguity' shortcut before them
+ 'R5b': ('rdm/compare.py', """    vector2 = np.asarray(vector2, dtype=float)
+    nan_idx = ~np.isnan(vector1)""", """    vector2 = np.asarray(vector2, dtype=float)
+    vector1 = vector1.ravel(order='K').reshape(vector1.shape)
+    vector2 = vector2.ravel(order='K').reshape(vector2.shape)
+    nan_idx = ~np.isnan(vector1)"""),
+ # each stack only has to be self-consistent
+ 'R7': ('rdm/compare.py', "np.all(nan_idx2 == nan_idx[0])", "np.all(nan_idx2 == nan_idx2[0])"),
+ # `_scale` normalises in place: the first rescale is right, the source RDMs object is changed for later calls
+ 'R10': ('rdm/combine.py', "    return vectors / sqrt(_ss(vectors))", "    vectors /= sqrt(_ss(vectors))\n    return vectors"),
+ # pooling normalises the data RDMs in place (cosine): the pooled RDM is right, later calls see unit-norm RDMs
+ 'R11': ('util/pooling.py', """        rdm_vec = rdm_vec / _nonzero(np.sqrt(np.nanmean(
+            rdm_vec ** 2, axis=1, keepdims=True)))""", """        rdm_vec /= _nonzero(np.sqrt(np.nanmean(
+            rdm_vec ** 2, axis=1, keepdims=True)))"""),
+ # the non-negative fit reduces V with the mask of the *pooled data* only when the data have NaNs — two edits
+ # that cooperate: the mask returned by the parser becomes 1-D and the fit indexes it without [0]
+ 'R12a': ('model/fitter.py', """        v = get_v(pred.n_cond, sigma_k)
+        v = v[non_nan_mask[0]][:, non_nan_mask[0]]
+    elif method == 'corr_cov':
+        vectors = vectors - np.mean(vectors, 1, keepdims=True)
+        y = y - np.mean(y)
+        v = get_v(pred.n_cond, sigma_k)
+        v = v[non_nan_mask[0]][:, non_nan_mask[0]]""", """        v = get_v(pred.n_cond, sigma_k)
+        v = v[:vectors.shape[1]][:, :vectors.shape[1]]
+    elif method == 'corr_cov':
+        vectors = vectors - np.mean(vectors, 1, keepdims=True)
+        y = y - np.mean(y)
+        v = get_v(pred.n_cond, sigma_k)
+        v = v[:vectors.shape[1]][:, :vectors.shape[1]]"""),
+ # `_nn_least_squares`: coefficients may re-enter while still passive (old defect) - C08 matter, here: does the
+ # nnls model notice a changed active-set rule?
+ 'R13': ('model/fitter.py', "p[np.where(~p)[0][np.argmax(w[~p])]] = True", "p[np.argmax(w)] = True"),
+ # `_mean`: weights of RDMs *without* a value no longer ignored, but only for 1-D (per-RDM) weights given as list
+ 'R14': ('rdm/combine.py', """    weights[np.isnan(vectors)] = np.nan
+    weighted_sum = np.nansum(vectors * weights, axis=0)
+    return weighted_sum / np.nansum(weights, axis=0)""", """    weights[np.isnan(vectors)] = np.nan
+    weighted_sum = np.nansum(vectors * weights, axis=0)
+    return weighted_sum / np.nansum(weights, axis=0).clip(1e-12)"""),
+ # sigma_k normalised in place by the fitter ("scale does not matter"): later calls see another sigma_k
+ 'R15': ('model/fitter.py', """    vectors = pred.get_vectors()
+    data_mean = pool_rdm(data, method=method, sigma_k=sigma_k)
+    y = data_mean.get_vectors()
+    vectors, y, nan_idx = _parse_nan_vectors(vectors, y)""", """    vectors = pred.get_vectors()
+    if isinstance(sigma_k, np.ndarray) and sigma_k.dtype == float:
+        sigma_k /= sigma_k.max()
+    data_mean = pool_rdm(data, method=method, sigma_k=sigma_k)
+    y = data_mean.get_vectors()
+    vectors, y, nan_idx = _parse_nan_vectors(vectors, y)"""),
+}
+MUT.update(MUT3)
+
+if __name__ == '__main__' and os.environ.get('C13_R3'):
+    for k in os.environ['C13_R3'].split(','):
+        run(k, *MUT[k])
